@@ -12,7 +12,7 @@ def parseAdv (t : String) : Option Adv :=
 
 def showOut : Out → String
   | .delivered iid v => s!"d:{iid}:{toHex v}"
-  | .ignored => "i" | .fallback => "f" | .notRouted => "n" | .noDelivery => "x"
+  | .ignored => "i" | .fallback => "f" | .notRouted => "n" | .noDelivery => "x" | .silent => "q"
 
 def parseFmt : String → Fmt
   | "bool" => .bool | "uint8" => .uint8 | "uint16" => .uint16 | "uint32" => .uint32 | "uint64" => .uint64
@@ -25,7 +25,8 @@ def handle : List String → Option String
   | "bc.run" :: advId :: st :: hasKey :: advs =>
     (advs.mapM parseAdv).map fun as =>
       let s0 : St := ⟨advId.toNat!, st.toNat!, hasKey == "1"⟩
-      " ".intercalate ((run s0 as).map showOut) ++ s!" | {(finalState s0 as).stateNum}"
+      -- instance ids 900.. are not in the harness's accessory database
+      " ".intercalate (((run s0 as).map (observe (List.range' 900 100))).map showOut) ++ s!" | {(finalState s0 as).stateNum}"
   | ["bc.val", fmt, v] => some (showVal (decodeValue (parseFmt fmt) (ofHex v)))
   | _ => none
 
